@@ -1,0 +1,31 @@
+//go:build verif
+
+// Contracts for the deductive verifier in /verif (govc). This file is compiled only with
+// -tags verif and contains no production code: contracts are the //@ comment blocks, keyed by
+// function name and loop ordinal; lemma harnesses are ordinary functions that call the real
+// code and end in verifAssert.
+
+package ua
+
+func verifAssert(label string, cond bool) {
+	if !cond {
+		panic("verif: assertion failed: " + label)
+	}
+}
+
+func verifCanary(label string, cond bool) {}
+
+// ---------------------------------------------------------------------------
+// C24: policy names given as short names or URIs
+// ---------------------------------------------------------------------------
+
+//@ func FormatSecurityPolicyURI
+//@   props C24
+//@   assigns nothing
+//@   ensures [C24:empty] policy == "" ==> result == ""
+//@   ensures [C24:alias] policy != "" && in(policy, SecurityPolicyURIs) ==> result == SecurityPolicyURIs[policy]
+//@   ensures [C24:uri] policy != "" && !in(policy, SecurityPolicyURIs) && strings.HasPrefix(policy, SecurityPolicyURIPrefix) ==>
+//@           result == policy
+//@   ensures [C24:short] policy != "" && !in(policy, SecurityPolicyURIs) && !strings.HasPrefix(policy, SecurityPolicyURIPrefix) ==>
+//@           result == SecurityPolicyURIPrefix + policy
+//@   canary ensures [C24:canary-always-prefix] policy != "" ==> result == SecurityPolicyURIPrefix + policy
